@@ -17,7 +17,12 @@ func init() {
 func genPayload(t *sim.Tape, tag int) ([]byte, string) {
 	sizes := []int{0, 1, 100, 1023, 1024, 1025, 4096, 65515, 65516, 65517, 131032, 300000}
 	n := sizes[t.Choose(len(sizes), "size")]
-	kind := t.Choose(4, "kind")
+	kind := t.Choose(5, "kind")
+	if kind == 4 {
+		ws := []string{"\n", " ", "\r\n", "\n\n", "\t \n"}[t.Choose(5, "whitespace-form")]
+		rep := []int{1, 1, 3, 400}[t.Choose(4, "whitespace-rep")]
+		return []byte(strings.Repeat(ws, rep)), "whitespace-only"
+	}
 	b := make([]byte, n)
 	r := sim.NewSplitMix(uint64(n)*31 + uint64(tag)*977 + t.Seed)
 	for i := 0; i < n; i += 8 {
@@ -62,6 +67,9 @@ func runC01Git(c *Ctx) {
 		gc := filepath.Join(w.Home, ".gitconfig")
 		b, _ := os.ReadFile(gc)
 		os.WriteFile(gc, []byte(strings.Replace(string(b), "\tprocess = git-lfs filter-process\n", "", 1)), 0644)
+	}
+	if t.Choose(3, "GIT_LFS_PROGRESS") == 1 {
+		w.ExtraEnv = append(w.ExtraEnv, "GIT_LFS_PROGRESS="+filepath.Join(w.Root, "progress.log"))
 	}
 	ext := t.Choose(4, "pointer-extension") == 0
 	if ext {
